@@ -152,8 +152,10 @@ class C07Sleep(Obs):
                 if woke == n:
                     self.stats["hold-queue-released"] += 1
                 else:
-                    self.fail("released-outside-wake", f"op {self.opno} {op!r}: hold queue of node {n} lost entries "
-                                                       f"although it did not announce a wake-up")
+                    # Entries that vanish WITHOUT leaving the gateway are not this property's business (C07 is about
+                    # what is sent; "every withheld reply exactly once" is C08): counted.  Entries that were sent
+                    # outside a wake-up burst are caught by the clause above.
+                    self.stats["hold-queue-shrunk-outside-wake(judged by C08, not here)"] += 1
             for x in new:
                 d, typ = head(x)
                 if d != n:
